@@ -223,7 +223,7 @@ func c02(c *an.Check) {
 
 func init() {
 	register(&Def{ID: "C02", Run: c02,
-		Explain:     "Decides on SSA: (MIRROR) NewSignatureWithHashedData and VerifyWithPublic join the same three operands (context, decimal hash type, digest) with the same separator; on the verify side the digest is hash.Sum(ht,data) for the very ht value that is written into the body; the Signature object records the signed hash type; NewSignature hashes with the type it signs; (R1) PubKey.Verify / PrivKey.Sign are reached only past the hash-type and empty-signature rejections; Signature.Validate succeeds only past its three rejections; (SIBLING) the HashType switches agree (UNKNOWN and undeclared values are rejected everywhere). The Ed25519 leg: a parsed public key is exactly 32 bytes and a small-order key never verifies. Shared: small-order classifier obligations, UnmarshalPublicKey decode gate, VerifyWithPublic on the caller's key.",
+		Explain:     "Decides on SSA: (MIRROR) NewSignatureWithHashedData and VerifyWithPublic join the same three operands (context, decimal hash type, digest) with the same separator; on the verify side the digest is hash.Sum(ht,data) for the very ht value that is written into the body; the Signature object records the signed hash type; NewSignature hashes with the type it signs; (R1) PubKey.Verify / PrivKey.Sign are reached only past the hash-type and empty-signature rejections; Signature.Validate succeeds only past its three rejections; (SIBLING) the HashType switches agree (UNKNOWN and undeclared values are rejected everywhere). The Ed25519 leg: a parsed public key is exactly 32 bytes and a small-order key never verifies. Shared: small-order classifier obligations, UnmarshalPublicKey decode gate, VerifyWithPublic on the caller's key. (NILDEREF) possibly-absent sub-messages are dereferenced only where known present; the embedded key is parsed by the unmarshaller registered for its own declared type, into a zero message; the sign/verify body may be built by one shared pure helper.",
 		NotCov:      "that signatures under different keys/contexts/data do not verify is a property of Ed25519 and the digest functions (trusted); 'verifies exactly when' is decided only as equality of the two constructions.",
 		Assumptions: commonAssumptions})
 }
